@@ -96,6 +96,19 @@ def cli_validation(ck):
                 elif s is not None and opt == "--chunk-size" and not (
                         s.minimize_min == v and s.minimize_max == v and s.minimize_repeat == "never"):
                     ck.violation(f"--chunk-size {v} did not set min=max={v}, repeat=never", {"argv": argv})
+    # --chunk-size is the shortcut wherever it stands: later --min / --max / --repeat do not undo it
+    for argv in (["--chunk-size", "4", "--repeat", "always"], ["--chunk-size", "4", "--min", "1"], ["--chunk-size", "2", "--max", "8"],
+                 ["--chunk-size=2", "--repeat=last", "--min=1", "--max=8"], ["--repeat", "always", "--chunk-size", "4"],
+                 ["--min", "1", "--max", "8", "--chunk-size", "2"]):
+        s = parse(argv)
+        n = int([a for a in argv if a.startswith("--chunk-size")][0].split("=")[1]) if any("chunk-size=" in a for a in argv) \
+            else int(argv[argv.index("--chunk-size") + 1])
+        ck.count("validation")
+        ck.nontrivial(("validation", tuple(argv)))
+        if s is None or not (s.minimize_min == n and s.minimize_max == n and s.minimize_repeat == "never"):
+            ck.violation(f"Minimize options {argv}: --chunk-size={n} must mean min=max={n} with a single sweep, got " +
+                         ("refused" if s is None else f"min={s.minimize_min} max={s.minimize_max} repeat={s.minimize_repeat}"),
+                         {"argv": argv})
     for v in (0, 1, 7):
         s = parse(["--max-run-time", str(v)])
         ck.count("validation")
